@@ -273,6 +273,39 @@ func (s *c12Sys) checkVersions(db *crashDB, h *c12History, latest int64, when st
 			return violf("C12/content", "%s: after LoadVersion(%d): %s", when, v, msg)
 		}
 	}
+	// the way the application reads history (queries at a height, previous-block contexts): a COPY of a store that
+	// sits at the latest version is asked for each version; the original must not move
+	live := s.open(db)
+	if live.LoadLatestVersion() != nil {
+		return nil
+	}
+	before := live.LastCommitID()
+	for v := int64(1); v <= latest+1; v++ {
+		var cp *rootmulti.Store
+		var err error
+		res := catch(func() {
+			cp = (*live.CopyStore()).(*rootmulti.Store)
+			err = cp.LoadVersion(v)
+		})
+		if res.panicked {
+			return violf("C12/copystore-panic", "%s: CopyStore().LoadVersion(%d) panicked (retained=%v, keepRecent=%d keepEvery=%d latest=%d): %v", when, v, h.retained[v], s.p.KeepRecent, s.p.KeepEvery, latest, res.pv)
+		}
+		if !h.retained[v] {
+			if err == nil {
+				return violf("C12/pruned-version-readable", "%s: CopyStore().LoadVersion(%d) succeeded although the version is pruned or in the future (latest=%d)", when, v, latest)
+			}
+			continue
+		}
+		if err != nil {
+			return violf("C12/retained-version-unreadable", "%s: CopyStore().LoadVersion(%d) failed for a version the policy retains (keepRecent=%d keepEvery=%d latest=%d): %v", when, v, s.p.KeepRecent, s.p.KeepEvery, latest, err)
+		}
+		if msg, ok := s.content(cp, h.snaps[v]); !ok {
+			return violf("C12/content", "%s: after CopyStore().LoadVersion(%d): %s", when, v, msg)
+		}
+	}
+	if after := live.LastCommitID(); after.Version != before.Version || !bytes.Equal(after.Hash, before.Hash) {
+		return violf("C12/copy-moved-the-original", "%s: loading versions on a copy moved the original store from (%d,%X) to (%d,%X)", when, before.Version, before.Hash, after.Version, after.Hash)
+	}
 	return nil
 }
 
